@@ -338,7 +338,18 @@ func driver(seed uint64, n int, outV, outJSON string, _ []string) {
 			if sz < 1 {
 				sz = 1
 			}
-			blobs = append(blobs, mkBlob(r, sz, r.Chance(50)))
+			b := mkBlob(r, sz, r.Chance(50))
+			for dup := true; dup; { // distinct contents: the content identity is the blob index
+				dup = false
+				for _, o := range blobs {
+					if o.hash == b.hash {
+						dup = true
+						b = mkBlob(r, sz+1, false)
+						sz++
+					}
+				}
+			}
+			blobs = append(blobs, b)
 		}
 		if zstdMode {
 			for i := range blobs {
@@ -449,6 +460,10 @@ func driver(seed uint64, n int, outV, outJSON string, _ []string) {
 				case f == 12:
 					hash, size, data = empty.hash, 0, nil
 					fault = "emptyblob"
+				case f == 13 && r.Chance(35):
+					// a correct payload followed by a lot of trailing data (more than one chunk buffer)
+					data = append(append([]byte{}, data...), make([]byte, 1<<20+r.Intn(3))...)
+					fault = "extended-1MiB"
 				}
 				hs := sha256.Sum256(data)
 				hashOK := hex.EncodeToString(hs[:]) == hash
